@@ -316,7 +316,7 @@ func main() {
 			}
 			return nil
 		}
-		r.Watch(127, append([]byte{byte(len(c.Old) >> 24), byte(len(c.Old) >> 16), byte(len(c.Old) >> 8), byte(len(c.Old))}, append(append([]byte(nil), c.Old...), c.New...)...))
+		wb := append([]byte{byte(len(c.Old) >> 24), byte(len(c.Old) >> 16), byte(len(c.Old) >> 8), byte(len(c.Old))}, append(append([]byte(nil), c.Old...), c.New...)...)
 		defer r.WatchDone(127)
 		// Diff is a pure function, so one evaluation decides. Should an
 		// implementation keep state between calls (a pooled buffer), whether a
@@ -324,6 +324,7 @@ func main() {
 		// processor migration): the oracle is a function of one call's result, so
 		// a violation on any repetition is genuine; the case is repeated.
 		for try := 0; try < 300; try++ {
+			r.Watch(127, wb) // per evaluation
 			if vs, _ := checkPair(c.Old, c.New); len(vs) > 0 {
 				return vs
 			}
